@@ -13,7 +13,7 @@ struct LrState {
     std::vector<uint64_t> apply_order;   // bits in the order of their first application
     int mods_in_progress = 0;
     long flips_seen = 0;                  // number of modifies that completed their first application
-    bool lbl_read_during_modify = false, lbl_held_across_flip = false, lbl_writer_waited = false; int lbl_crowd = 0;
+    bool lbl_read_during_modify = false, lbl_held_across_flip = false, lbl_writer_waited = false, lbl_unwinding = false, lbl_nonpos = false; int lbl_crowd = 0;
 };
 LrState* LS = nullptr;
 
@@ -58,14 +58,17 @@ vh::Outcome run_c03_t(const vh::Case& c, bool with_faults) {
                         m.call = vrt::now_step();
                         st.mods_in_progress++;
                         try {
-                            lr.modify([&](Tracked& t) {
+                            auto fn = [&](Tracked& t) {
                                 m.applies++;
                                 if (m.first_apply < 0) { m.first_apply = vrt::now_step(); st.apply_order.push_back(m.bit); }
                                 vrt::fault_point(vrt::F_FUNCTOR);      // throw before touching the copy
                                 t.or_bits(m.bit);
                                 vrt::fault_point(vrt::F_FUNCTOR);      // throw after the copy was modified
                                 if (m.applies == 1) st.flips_seen++;
-                            });
+                            };
+                            // RAII clean-up code calls modify() from a destructor while an exception is propagating (as cow_guarded's own deleter does)
+                            if ((op.b & 8) && !with_faults) { st.lbl_unwinding = true; auto call = [&] { lr.modify(fn); }; during_unwinding(call); }
+                            else lr.modify(fn);
                         } catch (const vrt::InjectedFault&) {
                             if (!with_faults) vrt::fail("escaped-fault", "fault injected although the plan is empty");
                             m.threw = true; m.threw_at = m.applies;
@@ -91,8 +94,9 @@ vh::Outcome run_c03_t(const vh::Case& c, bool with_faults) {
                             }
                             auto h = (op.a % 4 == 0) ? lr.lock_shared()
                                    : (op.a % 4 == 1) ? lr.try_lock_shared()
-                                   : (op.a % 4 == 2) ? lr.try_lock_shared_for(std::chrono::milliseconds(5))
-                                                     : lr.try_lock_shared_until((std::chrono::steady_clock::now() + std::chrono::milliseconds(50)));
+                                   : (op.a % 4 == 2) ? lr.try_lock_shared_for(timed_arg(op.a >> 2, false))
+                                                     : lr.try_lock_shared_until((std::chrono::steady_clock::now() + timed_arg(op.a >> 2, true)));
+                            if (op.a % 4 >= 2 && ((op.a >> 2) & 7) >= 4) st.lbl_nonpos = true;
                             if (!h) vrt::fail("null-handle", "lr_guarded shared acquisition returned a null handle");
                             r.got = vrt::now_step();
                             r.v1 = h->read();
@@ -149,6 +153,8 @@ vh::Outcome run_c03_t(const vh::Case& c, bool with_faults) {
     if (st.lbl_read_during_modify) out.labels.push_back("read-during-modify");
     if (st.lbl_held_across_flip) out.labels.push_back("held-across-flip");
     if (st.lbl_crowd) out.labels.push_back("crowd=" + std::to_string(st.lbl_crowd));
+    if (st.lbl_unwinding) out.labels.push_back("modify-during-unwinding");
+    if (st.lbl_nonpos) out.labels.push_back("non-positive-timeout");
     int active = 0; for (auto& f : c.fibers) if (!f.empty()) active++;
     out.labels.push_back("fibers=" + std::to_string(active));
     if (out.res.faults_fired) out.labels.push_back("fault-fired");
@@ -170,6 +176,9 @@ vh::Outcome run_c03(const vh::Case& c, bool with_faults) {
 // ================================================================================================ C04 cow_guarded
 struct Commit { uint64_t bit; long lock_call, lock_ret, rel_call = -1, rel_ret = -1; bool cancelled = false; bool committed = false; };
 
+// the write handle is publicly derived from std::unique_ptr: generic code reaches the private copy through the base class
+template<class U, class D> U& via_unique_ptr_base(std::unique_ptr<U, D>& p) { return *p; }
+
 template<class P, class M = vstd::mutex>
 vh::Outcome run_c04_t(const vh::Case& c) {
     using COW = lg::cow_guarded<P, M>;
@@ -179,7 +188,7 @@ vh::Outcome run_c04_t(const vh::Case& c) {
     std::deque<Commit> commits;
     std::vector<uint64_t> order;            // committed bits in commit order (release call order; writers are serialised)
     uint64_t cancelled_bits = 0;
-    bool lbl_reread_after_commit = false, lbl_cancel_while_blocked = false, lbl_moved = false, lbl_snapshot_outlived = false;
+    bool lbl_reread_after_commit = false, lbl_cancel_while_blocked = false, lbl_moved = false, lbl_snapshot_outlived = false, lbl_get = false, lbl_unwinding = false;
     int writers_waiting = 0;
     long commits_done = 0;
     long ctor0 = 0;
@@ -225,7 +234,10 @@ vh::Outcome run_c04_t(const vh::Case& c) {
                             typename COW::handle& h = *hopt;
                             cm.lock_ret = vrt::now_step();
                             if (!h) vrt::fail("null-handle", "cow_guarded::lock returned a null handle");
-                            uint64_t init = h->read();
+                            int path = (op.b >> 2) & 3;          // every public route to the private copy; one writer sticks to one route
+                            auto obj = [&]() -> P& { return path == 1 ? *h : path == 2 ? *h.get() : path == 3 ? via_unique_ptr_base(h) : *h.operator->(); };
+                            if (path >= 2) lbl_get = true;
+                            uint64_t init = obj().read();
                             // interval bounds for the initial value
                             uint64_t lower = 0, upper = 0;
                             for (auto& o : commits) {
@@ -239,7 +251,7 @@ vh::Outcome run_c04_t(const vh::Case& c) {
                             if (!mask_in_chain(init, order, 0)) vrt::fail("not-a-chain", "write handle starts from a value outside the sequence of committed states");
                             if (init != (order.empty() ? 0 : [&] { uint64_t a = 0; for (auto b : order) a |= b; return a; }()))
                                 vrt::fail("write-handle-stale", "write handle does not start from the latest committed value although writers are serialised");
-                            h->or_bits(cm.bit);
+                            obj().or_bits(cm.bit);
                             for (int s = 0; s < op.b % 3; ++s) vrt::step();
                             if (kind == 2) {
                                 cm.cancelled = true; cancelled_bits |= cm.bit;
@@ -263,6 +275,7 @@ vh::Outcome run_c04_t(const vh::Case& c) {
                             } else {
                                 cm.rel_call = vrt::now_step(); order.push_back(cm.bit);
                                 if (op.a & 1) { lbl_moved = true; typename COW::handle h2(std::move(h)); if (h) vrt::fail("move-not-null", "moved-from write handle is non-null"); h2.reset(); }
+                                else if ((op.b & 16) && !c.sched.fault_k) { lbl_unwinding = true; auto rel = [&] { h.reset(); }; during_unwinding(rel); }     // the handle goes out of scope because an exception propagates: that still publishes
                                 else h.reset();
                                 cm.rel_ret = vrt::now_step(); cm.committed = true; commits_done++;
                                 if (vrt::me().held != 0) vrt::fail("commit-holds-lock", "the writer lock is still held after the handle was released");
@@ -273,7 +286,7 @@ vh::Outcome run_c04_t(const vh::Case& c) {
                             long cd0 = commits_done;
                             long b0 = vrt::me().blocking_ops;
                             typename COW::shared_handle s = (op.a % 4 == 0) ? cow.lock_shared() : (op.a % 4 == 1) ? cow.try_lock_shared()
-                                                 : (op.a % 4 == 2) ? cow.try_lock_shared_for(std::chrono::milliseconds(1)) : cow.try_lock_shared_until((std::chrono::steady_clock::now() + std::chrono::milliseconds(50)));
+                                                 : (op.a % 4 == 2) ? cow.try_lock_shared_for(timed_arg(op.a >> 2, false)) : cow.try_lock_shared_until((std::chrono::steady_clock::now() + timed_arg(op.a >> 2, true)));
                             (void)b0;      // non-blocking reads are C14's business (decided there by completion against a frozen writer)
                             if (!s) vrt::fail("null-handle", "cow_guarded shared acquisition returned null");
                             uint64_t v1 = s->read();
@@ -307,6 +320,8 @@ vh::Outcome run_c04_t(const vh::Case& c) {
     if (lbl_snapshot_outlived) out.labels.push_back("old-snapshot-outlived-commit");
     if (lbl_cancel_while_blocked) out.labels.push_back("cancel-while-writer-blocked");
     if (lbl_moved) out.labels.push_back("moved-write-handle");
+    if (lbl_get) out.labels.push_back("written-through-get()/base-class");
+    if (lbl_unwinding) out.labels.push_back("released-during-unwinding");
     out.nontrivial = lbl_reread_after_commit || lbl_snapshot_outlived || lbl_cancel_while_blocked;
     if (c.sched.fault_k) { out.nontrivial = out.res.faults_fired > 0; if (out.res.faults_fired) out.labels.push_back("fault-fired"); }
     return out;
@@ -325,7 +340,7 @@ vh::Outcome run_c04(const vh::Case& c) {
 }
 
 vh::GenSpec c04_spec(bool thorough) {
-    vh::GenSpec g; g.nfibers = 4; g.cfg_max = {3, 2}; g.max_ops = thorough ? 6 : 4; g.ncodes = 6; g.amax = 4; g.bmax = 4;
+    vh::GenSpec g; g.nfibers = 4; g.cfg_max = {3, 2}; g.max_ops = thorough ? 6 : 4; g.ncodes = 6; g.amax = 32; g.bmax = 32;
     g.sched_len = thorough ? 256 : 176; g.aux_len = 16;
     return g;
 }
@@ -338,11 +353,11 @@ vh::Register r_c04("C04", c04_spec(false), c04_spec(true), run_c04,
 
 vh::GenSpec c03_spec(bool thorough) {
     vh::GenSpec g;
-    g.nfibers = 4; g.max_ops = thorough ? 6 : 4; g.ncodes = 2; g.amax = 4; g.bmax = 4; g.cfg_max = {4};
+    g.nfibers = 4; g.max_ops = thorough ? 6 : 4; g.ncodes = 2; g.amax = 32; g.bmax = 16; g.cfg_max = {4};
     g.sched_len = thorough ? 192 : 128; g.aux_len = 16; g.allow_weak = false;
     return g;
 }
-vh::GenSpec c03c_spec(bool thorough) { vh::GenSpec g = c03_spec(thorough); g.cfg_max = {4, 8}; g.bmax = 8; g.max_ops = 3; return g; }
+vh::GenSpec c03c_spec(bool thorough) { vh::GenSpec g = c03_spec(thorough); g.cfg_max = {4, 8}; g.max_ops = 3; return g; }
 vh::GenSpec c03w_spec(bool thorough) { vh::GenSpec g = c03_spec(thorough); g.allow_weak = true; return g; }
 vh::GenSpec c20lr_spec(bool thorough) { vh::GenSpec g = c03_spec(thorough); g.fault_max = 12; g.fault_mask = vrt::F_FUNCTOR; return g; }
 
